@@ -35,6 +35,7 @@ func main() {
 	list := flag.Bool("list", false, "list properties")
 	dump := flag.Bool("dump", false, "print every obligation")
 	flag.Parse()
+	debug.SetGCPercent(400)
 	if *list {
 		var ids []string
 		for id := range registry {
